@@ -32,6 +32,8 @@ class Arith (α : Type) extends Add α, Sub α, Mul α, Neg α, Div α where
   isZero : α → Bool
   /-- the C++ test `x == 0` (a genuine comparison for every instance) -/
   eq0 : α → Bool
+  /-- conversion of an `unsigned` / `int` count to the scalar type -/
+  ofNat : Nat → α
 
 export Arith (zero one two half)
 
@@ -42,6 +44,7 @@ instance : Arith Rat where
   half := 1/2
   isZero x := x == 0
   eq0 x := x == 0
+  ofNat n := (n : Rat)
 
 instance : Arith Float where
   zero := 0
@@ -50,6 +53,7 @@ instance : Arith Float where
   half := 0.5
   isZero _ := false
   eq0 x := x == 0
+  ofNat n := Float.ofNat n
 
 /-- Division with the guard the exact-arithmetic C++ instantiation enforces. -/
 def sdiv {α : Type} [Arith α] (a b : α) : R α :=
